@@ -98,6 +98,38 @@ func c04Gen(rng *verifsim.RNG, idx int, tier string) *Plan {
 		if p.Horizon < t0+nsSec {
 			p.Horizon = t0 + nsSec
 		}
+	} else if rng.Bool(0.2) {
+		// An RA that cannot be completed (the automatic prefix's address listing
+		// fails, or the interface has never been initialised) on an interface that
+		// is not forwarding: whatever a reporting path shows of it must not claim a
+		// default router.
+		p.Class = "plugin-fails"
+		k := rng.Intn(nif)
+		n.Config.Interfaces[k].Prefixes = append(n.Config.Interfaces[k].Prefixes, PrefixSpec{Prefix: sp("::/64")})
+		n.Ifaces[k].Fwd = false
+		n.Ifaces[k].Addrs = pickAddrs(rng, n.Ifaces[k].LL, 4)
+		name := n.Ifaces[k].Name
+		var keep []Action
+		for _, a := range p.Actions {
+			if a.Kind == "fwd" && a.If == name {
+				continue
+			}
+			keep = append(keep, a)
+		}
+		p.Actions = keep
+		if rng.Bool(0.5) {
+			// not there at start-up: requests before it is ever initialised
+			up := int64(rng.Dur(2*time.Second, horizon))
+			n.Ifaces[k].Down = true
+			p.Actions = append(p.Actions, Action{At: up, Kind: "ifup", If: name})
+			for i, c := 0, rng.Range(1, 3); i < c; i++ {
+				p.Actions = append(p.Actions, Action{At: int64(rng.Dur(100*time.Millisecond, time.Duration(up))), Kind: "http", Path: []string{"/_/api/interfaces", "/metrics"}[rng.Intn(2)]})
+			}
+		} else {
+			t0 := int64(rng.Dur(2*time.Second, horizon)) + 777
+			p.Faults = append(p.Faults, Fault{Seam: "rtnl.addr", If: name, From: t0, Count: rng.Range(1, 2), Err: []string{"nl.EPERM", "nl.EINVAL", "opaque"}[rng.Intn(3)]})
+			p.Actions = append(p.Actions, Action{At: t0, Kind: "http", Path: []string{"/_/api/interfaces", "/metrics"}[rng.Intn(2)]})
+		}
 	} else if rng.Bool(0.3) {
 		// A build whose forwarding read has sampled its value but is slow to
 		// return; forwarding flips; another RA is asked for and built while the
@@ -211,6 +243,15 @@ func c04Oracle(info *runInfo, res *verifsim.Result) {
 		conf := configured[b.ifn]
 		if conf == 0 {
 			continue // don't-care
+		}
+		listingFailed := false
+		for _, l := range append(append([]string(nil), b.addr...), b.routes...) {
+			if strings.HasPrefix(l, "!") {
+				listingFailed = true
+			}
+		}
+		if w == nil && listingFailed {
+			continue // the build was given up: no RA, nothing to report about it
 		}
 		final := w != nil && stopSeq != 0 && w.seq > stopSeq && sig != "SIGHUP" && w.mc() && b.g != 0 && w.ra != nil && w.ra.RouterLifetime == 0 && isTaskGoroutine(info, b.g, b.ifn)
 		if final {
